@@ -21,6 +21,7 @@ import (
 	"log/slog"
 	"os"
 	"os/exec"
+	"path/filepath"
 	"regexp"
 	"runtime"
 	"sort"
@@ -35,6 +36,7 @@ import (
 	"github.com/prometheus/prometheus/model/labels"
 	"pgregory.net/rapid"
 
+	"github.com/cloudflare/pint/internal/config"
 	"github.com/cloudflare/pint/internal/promapi"
 	"github.com/cloudflare/pint/verifharness/fakeprom"
 	"github.com/cloudflare/pint/verifharness/vstat"
@@ -121,8 +123,9 @@ type Case struct {
 	DelaysUs []int   `json:"delays_us,omitempty"`
 	ErrEvery int     `json:"err_every,omitempty"`
 	// stress: cache maintenance running concurrently with the callers
-	GC   bool `json:"gc,omitempty"`   // FailoverGroup.CleanCache() loops in its own goroutine for the whole run
-	Fill int  `json:"fill,omitempty"` // distinct instant queries answered (and cached) before the callers start
+	Via  string `json:"via,omitempty"`  // kind "config": static | discovery
+	GC   bool   `json:"gc,omitempty"`   // FailoverGroup.CleanCache() loops in its own goroutine for the whole run
+	Fill int    `json:"fill,omitempty"` // distinct instant queries answered (and cached) before the callers start
 	// stress: the cacheTTL (ms) each caller passes to Config(); empty = 0 for everybody
 	ConfigTTLs []int  `json:"config_ttls,omitempty"`
 	Rounds     int    `json:"rounds,omitempty"` // after its waves every caller asks all (by then answered) questions again, this many times
@@ -1161,6 +1164,110 @@ func TestPropOverlapWindows(t *testing.T) {
 }
 
 // ---------------------------------------------------------------------------
+// servers built the way pint builds them: from a configuration file
+
+// TestPropConfigBuilt: the `concurrency` of a server is whatever its prometheus{} block or its discovery template
+// says. A .pint.hcl with either a static block or a discovery{filepath{template{...}}} block is loaded with
+// config.Load, the servers are created by PrometheusGenerator (GenerateStatic / GenerateDynamic), and many callers
+// ask distinct instant queries at once against the free-running fake: the server must never see more than the
+// configured number in flight, and every question once.
+func TestPropConfigBuilt(t *testing.T) {
+	rec := vstat.New(t, prop)
+	rapid.Check(t, func(rt *rapid.T) {
+		c := Case{Kind: "config"}
+		c.Concurrency = rapid.SampledFrom([]int{1, 2, 3, 5, 8}).Draw(rt, "concurrency")
+		c.Via = rapid.SampledFrom([]string{"static", "discovery", "discovery"}).Draw(rt, "via")
+		c.Procs = rapid.IntRange(8, 30).Draw(rt, "callers")
+		c.DelaysUs = rapid.SliceOfN(rapid.IntRange(2000, 15000), 3, 6).Draw(rt, "delays")
+		maxSeen, err := runConfigBuilt(c)
+		if errors.Is(err, errInconclusive) {
+			rec.Case("inconclusive:config", false, "", nil)
+			rec.Count("inconclusive_cases", 1)
+			t.Logf("inconclusive: %v", err)
+			return
+		}
+		c.Class = fmt.Sprintf("config:%s:c=%d", c.Via, c.Concurrency)
+		rec.Case(c.Class, maxSeen >= min(c.Concurrency, 2) && c.Procs > c.Concurrency, caseKey(c)+c.Via, func() any { return c })
+		if err != nil {
+			rec.Fail(c, err)
+			rt.Fatalf("%s", wsRe.ReplaceAllString(err.Error(), " "))
+		}
+	})
+}
+
+func runConfigBuilt(c Case) (maxSeen int, err error) {
+	g := fakeprom.NewGated(c.Concurrency)
+	defer g.Close()
+	delays := make([]time.Duration, len(c.DelaysUs))
+	for i, d := range c.DelaysUs {
+		delays[i] = time.Duration(d) * time.Microsecond
+	}
+	g.SetFree(delays, 0)
+	dir, derr := os.MkdirTemp("", "c14-config-")
+	if derr != nil {
+		return 0, fmt.Errorf("%w: %v", errInconclusive, derr)
+	}
+	defer os.RemoveAll(dir)
+	var hcl string
+	switch c.Via {
+	case "static":
+		hcl = fmt.Sprintf("prometheus \"prod\" {\n  uri = %q\n  timeout = \"30s\"\n  concurrency = %d\n  rateLimit = 100000\n}\n", g.URL(), c.Concurrency)
+	default:
+		if err := os.MkdirAll(filepath.Join(dir, "servers"), 0o755); err != nil {
+			return 0, fmt.Errorf("%w: %v", errInconclusive, err)
+		}
+		if err := os.WriteFile(filepath.Join(dir, "servers", "prod.yaml"), []byte("# prod\n"), 0o644); err != nil {
+			return 0, fmt.Errorf("%w: %v", errInconclusive, err)
+		}
+		hcl = fmt.Sprintf("discovery {\n  filepath {\n    directory = %q\n    match = \"(?P<name>\\\\w+).yaml\"\n    template {\n      name = \"{{ $name }}\"\n      uri = %q\n      timeout = \"30s\"\n      concurrency = %d\n      rateLimit = 100000\n    }\n  }\n}\n",
+			filepath.Join(dir, "servers"), g.URL(), c.Concurrency)
+	}
+	cfgPath := filepath.Join(dir, ".pint.hcl")
+	if err := os.WriteFile(cfgPath, []byte(hcl), 0o644); err != nil {
+		return 0, fmt.Errorf("%w: %v", errInconclusive, err)
+	}
+	cfg, _, lerr := config.Load(cfgPath, true)
+	if lerr != nil {
+		return 0, fmt.Errorf("%w: generated configuration does not load: %v\n%s", errInconclusive, lerr, hcl)
+	}
+	gen := config.NewPrometheusGenerator(cfg, prometheus.NewRegistry())
+	defer gen.Stop()
+	if err := gen.GenerateStatic(); err != nil {
+		return 0, fmt.Errorf("%w: %v", errInconclusive, err)
+	}
+	if err := gen.GenerateDynamic(context.Background()); err != nil {
+		return 0, fmt.Errorf("%w: %v", errInconclusive, err)
+	}
+	prom := gen.ServerWithName("prod")
+	if prom == nil {
+		return 0, fmt.Errorf("%w: no server named prod was created from\n%s", errInconclusive, hcl)
+	}
+	var wg sync.WaitGroup
+	for i := 0; i < c.Procs; i++ {
+		wg.Add(1)
+		go func() {
+			defer wg.Done()
+			_, _ = prom.Query(context.Background(), fmt.Sprintf("count(metric_%d)", i))
+		}()
+	}
+	done := make(chan struct{})
+	go func() { wg.Wait(); close(done) }()
+	select {
+	case <-done:
+	case <-time.After(120 * time.Second):
+		return 0, fmt.Errorf("%w: callers did not finish within 120s", errInconclusive)
+	}
+	st := g.Stats()
+	for _, sp := range g.Suspects() { // free-running, nothing is ever cancelled: observations are final
+		return st.MaxInFlight, fmt.Errorf("server built from a %s block with concurrency = %d: %s", c.Via, c.Concurrency, sp.String())
+	}
+	if st.Requests != c.Procs {
+		return st.MaxInFlight, fmt.Errorf("%d distinct questions, the server saw %d requests", c.Procs, st.Requests)
+	}
+	return st.MaxInFlight, nil
+}
+
+// ---------------------------------------------------------------------------
 // stress (free-running)
 
 func genStress(t *rapid.T) Case {
@@ -1628,6 +1735,10 @@ func TestReplay(t *testing.T) {
 					err = fmt.Errorf("%w: callers stalled once but not when the schedule was run again", errInconclusive)
 				}
 			}
+		}
+	case "config":
+		for i := 0; i < 5 && err == nil; i++ {
+			_, err = runConfigBuilt(c)
 		}
 	case "race":
 		t.Logf("a data-race report cannot be replayed deterministically; stored report:\n%s", c.Report)
